@@ -19,7 +19,10 @@ RULE = ('one op = one (map, options, dims, theta) evaluated by the Float model a
         'of >= 2 samples are with probability 0.6 extreme batches (a +bound row and a -bound row in the same batch, the rest at per-row offsets). '
         'Bounds: 1e2; 10 for choleskyL; 80 for exp and 10 for the exp/Cayley charts in float32. Inputs whose pre-factor matrix is ill-conditioned '
         '(cond > 1e3, > 20 in float32) are redrawn for the maps that orthonormalise through LAPACK. dims 2..6, all ranks, every method. '
-        'The evidence histogram input-* counts the row kinds. distinct = distinct (op line, backend, dtype, batch rank).')
+        'The evidence histogram input-* counts the row kinds. distinct = distinct (op line, backend, dtype, batch rank). '
+        'Stiefel(method=so-exp|so-cayley) is driven as a module (spec stiefel-so, op stso). Exact (Gaussian-integer) ops: abkh, abk2, abkperm, abk2sum '
+        '(ABk2localHermitian.forward against the table-free sum of embeddings), abktoab. sogen: the generator captured at the entry of '
+        'scipy.linalg.expm / torch.linalg.matrix_exp.')
 TRUSTED = ['Lean 4.33 kernel', 'axioms: propext, Classical.choice, Quot.sound', 'Lean compiler and the C math library behind Float.exp/log/sin/cos/sqrt',
            'textbook numerics of NumqiModel.Manifold.Num (Gauss-Jordan inverse, Cholesky, scaling-and-squaring expm, Denman-Beavers inverse square root, '
            'Gram-Schmidt QR) — used by the driver only, a defect there shows as a disagreement',
@@ -304,6 +307,33 @@ class SoCayley(SoExp):
         yield from unitary_checks('special_orthogonal:cayley', self.is_real(), y, tol * sc, det_one=self.is_real())
 
 
+class StSO(SoExp):
+    """`Stiefel(dim, rank, batch_size, method='so-exp'|'so-cayley', dtype)()` — the nn.Module itself: forward() takes the first `rank` columns of the
+    SO/SU chart (`_stiefel.py:68-71`, Cayley order = the default 2).  The parameter is assigned to `module.theta` (a batch `shp` becomes
+    `batch_size = prod(shp)`); model constant `soColumns` (op `stso`)."""
+    name = 'stiefel-so'
+    def key(self): return f'stiefel-so-{self.meth}-{self.rc}-d{self.dim}-r{self.rank}'
+    def call(self, th):
+        import torch
+        t = th if isinstance(th, torch.Tensor) else torch.as_tensor(np.asarray(th))
+        f32 = t.dtype == torch.float32
+        dt = {('r', True): torch.float32, ('r', False): torch.float64, ('c', True): torch.complex64, ('c', False): torch.complex128}[(self.rc, f32)]
+        shp = tuple(t.shape[:-1])
+        bs = None if len(shp) == 0 else int(np.prod(shp))
+        m = M().Stiefel(self.dim, self.rank, bs, 'so-' + self.meth, dtype=dt)
+        assert tuple(m.theta.shape) == ((self.nparam(),) if bs is None else (bs, self.nparam())), f'theta shape {tuple(m.theta.shape)}'
+        assert m.theta.dtype == (torch.float32 if f32 else torch.float64)
+        with torch.no_grad():
+            m.theta.data = t.reshape(m.theta.shape)
+            y = m()
+        return y.reshape(shp + (self.dim, self.rank))
+    def op(self, th): return f'C01 stso {self.dim} {self.rank} {self.rc} {self.meth} {tbits(th)}'
+    def out_shape(self): return (self.dim, self.rank)
+    def checks(self, th, y, tol):
+        sc = max(1.0, float(np.abs(th).max(initial=0)) * self.dim / 10) * 2
+        yield from stiefel_checks('stiefel:so-' + self.meth, self.is_real(), y, tol * sc)
+
+
 def stiefel_mat(dim, rank, is_real, th):
     if is_real:
         return th.reshape(dim, rank).astype(np.float64)
@@ -420,6 +450,8 @@ def all_specs(ctx, rng):
                 for n1 in (False, True):
                     specs.append(SymMat(dim=d, rc=rc, t0=t0, n1=n1))
             specs.append(SoExp(dim=d, rc=rc))
+            for r in (sorted({1, d}) if ctx.quick() else range(1, d + 1)):
+                specs += [StSO(dim=d, rank=r, rc=rc, meth='exp'), StSO(dim=d, rank=r, rc=rc, meth='cayley')]
             for order in (1, 2, 3):
                 specs.append(SoCayley(dim=d, rc=rc, order=order))
     return specs
@@ -557,8 +589,6 @@ def run_specs(ctx, specs, rng, per_spec, for_tie=True):
                 shp = shapes_[int(rng.choice([2, 3]))] if rng.random() < 0.7 else shapes_[int(rng.integers(0, 4))]
                 pick.append((f32, shp))
         for f32, shp in pick:
-            if isinstance(spec, StEuler) and len(shp) > 1:
-                shp = shapes_[2]    # to_stiefel_euler asserts theta.ndim <= 2 (the guard is tied separately)
             kinds = []
             th = draw_theta(rng, spec, shp, f32, kinds, for_tie)
             for k in kinds:
@@ -597,14 +627,6 @@ def correspondence(ctx):
                 meta.append((spec, backend, f32, shp, rows[s], f'error:shape{y.shape}'))
             else:
                 meta.append((spec, backend, f32, shp, rows[s], y.reshape(-1, osz)[s].reshape(spec.out_shape())))
-    # the ndim guard of to_stiefel_euler
-    e = StEuler(dim=3, rank=2, rc='r', phase=False)
-    g = guarded(lambda: M().to_stiefel_euler(np.zeros((2, 2, 3)), 3, 2))
-    ctx.count('euler-ndim-guard')
-    if g == 'error:assert':
-        ctx.agree('to_stiefel_euler ndim 3', 'euler-ndim-guard')
-    else:
-        ctx.note(f'to_stiefel_euler accepts ndim 3 now: {g if isinstance(g, str) else "array"}')
     out = common.run_model(ops)
     worst = {}
     for op, (spec, backend, f32, shp, th, y), line in zip(ops, meta, out):
@@ -633,6 +655,7 @@ def correspondence(ctx):
     for op, line in list(zip(ops, out))[:3]:
         ctx.sample({'op': op[:160], 'model': line[:120]})
     abk_tie(ctx, rng)
+    sogen_tie(ctx, rng)
     ctx.extra['worst_error_over_tolerance'] = {k: round(v, 6) for k, v in sorted(worst.items())}
     ctx.extra['tolerance'] = f'rel. (to max(1,|value|)) <= {TOL64} for float64 parameters, {TOL32} for float32 parameters'
     ctx.extra['exhaustive'] = False
@@ -797,6 +820,46 @@ def module_cases(ctx, rng):
                         if meth == 'so-cayley': return Mm.to_special_orthogonal_cayley(m.theta, m.dim)[..., :m.rank]
                         return Mm.to_stiefel_euler(m.theta, m.dim, m.rank, m.euler_with_phase)
                     cases.append((f'Stiefel({d},{r},{meth},{ph},{bs},{dt})', lambda d=d, r=r, bs=bs, dt=dt, meth=meth, ph=ph: Mm.Stiefel(d, r, bs, meth, ph, dtype=dt), fn))
+    # round 6: the wrappers of _compose.py (positional forwarding only) and the documented defaults (rank=None, dtype defaults, method defaults)
+    def same_as(direct):
+        def chk(m):
+            dm = direct()
+            bad = [k for k, v in vars(dm).items() if not k.startswith('_') and not isinstance(v, torch.Tensor) and vars(m).get(k) != v]
+            assert type(m) is type(dm) and m.theta.shape == dm.theta.shape and m.theta.dtype == dm.theta.dtype and not bad, f'differs from the direct constructor: {bad}'
+        return chk
+    for bs in (None, 2):
+        for cdt in (torch.complex128, torch.complex64):
+            d = int(rng.integers(2, 6)); r = int(rng.integers(1, d + 1)); co = int(rng.integers(1, 4))
+            for meth in ('quotient', 'coordinate'):
+                cases.append((f'quantum_state({d},{bs},{meth},{cdt})', lambda d=d, bs=bs, meth=meth, cdt=cdt: Mm.quantum_state(d, bs, meth, dtype=cdt),
+                              lambda m, meth=meth: (Mm.to_sphere_quotient if meth == 'quotient' else Mm.to_sphere_coordinate)(m.theta, m.is_real),
+                              same_as(lambda d=d, bs=bs, meth=meth, cdt=cdt: Mm.Sphere(d, bs, meth, dtype=cdt))))
+            for meth in ('cholesky', 'ensemble'):
+                for rr in (None, r):
+                    cases.append((f'density_matrix({d},{rr},{bs},{meth},{cdt})', lambda d=d, rr=rr, bs=bs, meth=meth, cdt=cdt: Mm.density_matrix(d, rr, bs, meth, dtype=cdt),
+                                  lambda m, meth=meth: (Mm.to_trace1_psd_cholesky if meth == 'cholesky' else Mm.to_trace1_psd_ensemble)(m.theta, m.dim, m.rank),
+                                  same_as(lambda d=d, rr=rr, bs=bs, meth=meth, cdt=cdt: Mm.Trace1PSD(d, (d if rr is None else rr), bs, meth, dtype=cdt))))
+            cases.append((f'quantum_gate({d},{bs},exp,{cdt})', lambda d=d, bs=bs, cdt=cdt: Mm.quantum_gate(d, bs, 'exp', dtype=cdt),
+                          lambda m: Mm.to_special_orthogonal_exp(m.theta, m.dim), same_as(lambda d=d, bs=bs, cdt=cdt: Mm.SpecialOrthogonal(d, bs, 'exp', dtype=cdt))))
+            cases.append((f'quantum_gate({d},{bs},cayley{co},{cdt})', lambda d=d, bs=bs, cdt=cdt, co=co: Mm.quantum_gate(d, bs, 'cayley', co, dtype=cdt),
+                          lambda m: Mm.to_special_orthogonal_cayley(m.theta, m.dim, m.cayley_order),
+                          same_as(lambda d=d, bs=bs, cdt=cdt, co=co: Mm.SpecialOrthogonal(d, bs, 'cayley', co, dtype=cdt))))
+    d = int(rng.integers(2, 6))
+    # every constructor with ONLY its required arguments: the documented defaults (wrappers: complex128; classes: float64; rank=None -> dim; …)
+    cases += [
+        (f'quantum_state({d})', lambda: Mm.quantum_state(d), lambda m: Mm.to_sphere_quotient(m.theta, False), same_as(lambda: Mm.Sphere(d, None, 'quotient', dtype=torch.complex128))),
+        (f'density_matrix({d})', lambda: Mm.density_matrix(d), lambda m: Mm.to_trace1_psd_cholesky(m.theta, d), same_as(lambda: Mm.Trace1PSD(d, d, None, 'cholesky', dtype=torch.complex128))),
+        (f'quantum_gate({d})', lambda: Mm.quantum_gate(d), lambda m: Mm.to_special_orthogonal_exp(m.theta, d), same_as(lambda: Mm.SpecialOrthogonal(d, None, 'exp', 2, dtype=torch.complex128))),
+        ('PositiveReal()', lambda: Mm.PositiveReal(), lambda m: Mm.to_positive_real_softplus(m.theta), same_as(lambda: Mm.PositiveReal(None, 'softplus', dtype=torch.float64))),
+        (f'DiscreteProbability({d})', lambda: Mm.DiscreteProbability(d), lambda m: Mm.to_discrete_probability_softmax(m.theta), same_as(lambda: Mm.DiscreteProbability(d, None, 'softmax', dtype=torch.float64))),
+        (f'Ball({d})', lambda: Mm.Ball(d), lambda m: Mm.to_ball(m.theta, True), same_as(lambda: Mm.Ball(d, None, dtype=torch.float64))),
+        (f'Sphere({d})', lambda: Mm.Sphere(d), lambda m: Mm.to_sphere_quotient(m.theta, True), same_as(lambda: Mm.Sphere(d, None, 'quotient', dtype=torch.float64))),
+        (f'Trace1PSD({d})', lambda: Mm.Trace1PSD(d), lambda m: Mm.to_trace1_psd_cholesky(m.theta, d), same_as(lambda: Mm.Trace1PSD(d, d, None, 'cholesky', dtype=torch.float64))),
+        (f'Trace1PSD({d},None,2,ensemble)', lambda: Mm.Trace1PSD(d, None, 2, 'ensemble'), lambda m: Mm.to_trace1_psd_ensemble(m.theta, d), same_as(lambda: Mm.Trace1PSD(d, d, 2, 'ensemble', dtype=torch.float64))),
+        (f'SymmetricMatrix({d})', lambda: Mm.SymmetricMatrix(d), lambda m: Mm.to_symmetric_matrix(m.theta, d, m.is_trace0, m.is_norm1), same_as(lambda: Mm.SymmetricMatrix(d, None, False, False, dtype=torch.float64))),
+        (f'SpecialOrthogonal({d})', lambda: Mm.SpecialOrthogonal(d), lambda m: Mm.to_special_orthogonal_exp(m.theta, d), same_as(lambda: Mm.SpecialOrthogonal(d, None, 'exp', 2, dtype=torch.float64))),
+        (f'Stiefel({d},1)', lambda: Mm.Stiefel(d, 1), lambda m: Mm.to_stiefel_polar(m.theta, d, 1), same_as(lambda: Mm.Stiefel(d, 1, None, 'polar', False, dtype=torch.float64))),
+    ]
     return cases
 
 
@@ -805,13 +868,21 @@ def probe_modules(ctx, rng):
     import torch
     cases = module_cases(ctx, rng)
     if ctx.quick():
+        extra = [c for c in cases if len(c) > 3]      # wrappers / defaults: always
+        cases = [c for c in cases if len(c) == 3]
         idx = rng.choice(len(cases), size=min(len(cases), 260), replace=False)
-        cases = [cases[i] for i in sorted(idx)]
-    for desc, mk, fn in cases:
+        cases = [cases[i] for i in sorted(idx)] + extra
+    for case in cases:
+        desc, mk, fn = case[:3]
         torch.manual_seed(int(rng.integers(1 << 30)))
         m = guarded(mk)
         if isinstance(m, str):
             ctx.fail('module:constructor', f'{desc} raised {m}', dict(module=desc)); continue
+        if len(case) > 3:
+            try:
+                case[3](m); ctx.probe_ok(('module-defaults', desc))
+            except AssertionError as e:
+                ctx.fail('module:wrapper!=class', f'{desc}: {e}', dict(module=desc)); continue
         with torch.no_grad():
             a = guarded(lambda: m())
             b = guarded(lambda: fn(m))
@@ -859,14 +930,27 @@ def probe_compose(ctx, rng):
             for cr in range(1, din * dout + 1):
                 if cr * dout >= din:
                     chan_cfgs.append((meth, din, dout, cr))
-    for rep, (meth, din, dout, cr) in enumerate(chan_cfgs):
+    # round 6: the documented default `choi_rank=None` (-> dim_in*dim_out), and the all-defaults constructor (method 'qr', kind 'kraus', complex128)
+    for din, dout in dimsets:
+        for meth in ['qr', 'polar', 'so-exp', 'euler']:
+            chan_cfgs.append((meth, din, dout, None))
+    for rep, (meth, din, dout, cr_arg) in enumerate(chan_cfgs):
+        cr = din * dout if cr_arg is None else cr_arg
         bs = [None, 2][rep % 2]
         dt = [torch.complex128, torch.complex64][(rep // 2) % 2]
+        all_defaults = cr_arg is None and meth == 'qr'
+        if all_defaults:
+            bs, dt = None, torch.complex128
         tol = PROBE64 if dt == torch.complex128 else PROBE32
         for kind in ('kraus', 'choi'):
             torch.manual_seed(int(rng.integers(1 << 30)))
-            desc = f'QuantumChannel({din},{dout},{cr},{bs},{meth},{kind},{dt})'
-            ch = guarded(lambda: Mm.QuantumChannel(din, dout, cr, bs, meth, euler_with_phase=(rep % 4 == 0), return_kind=kind, dtype=dt))
+            desc = f'QuantumChannel({din},{dout},{cr_arg},{bs},{meth},{kind},{dt})' + ('[defaults]' if all_defaults and kind == 'kraus' else '')
+            if all_defaults and kind == 'kraus':
+                ch = guarded(lambda: Mm.QuantumChannel(din, dout))
+            else:
+                ch = guarded(lambda: Mm.QuantumChannel(din, dout, cr_arg, bs, meth, euler_with_phase=(rep % 4 == 0), return_kind=kind, dtype=dt))
+            if not isinstance(ch, str) and tuple(ch.manifold.theta.shape[-1:]) != (2 * cr * dout * din,) and meth in ('qr', 'polar'):
+                ctx.fail('channel:default-choi-rank', f'{desc}: Stiefel parameter count {tuple(ch.manifold.theta.shape)} is not that of choi_rank={cr}', dict(module=desc)); continue
             if isinstance(ch, str):
                 ctx.fail('channel:constructor', f'{desc} raised {ch}', dict(module=desc)); continue
             # exactly-zero parameters (zero vector, random mask, an empty column of the QR pre-factor): legal for every method except polar
@@ -919,10 +1003,18 @@ def probe_compose(ctx, rng):
         nc = int(rng.integers(2, 6))
         bs = [None, 2][rep % 2]
         dt = [torch.complex128, torch.complex64][(rep // 2) % 2]
+        nc_arg = nc
+        if rep % 4 in (0, 3):       # round 6: the documented default num_cha=None (-> 2*dimA*dimB); rep 0: the all-defaults constructor
+            nc_arg, nc = None, 2 * dA * dB
         tol = PROBE64 if dt == torch.complex128 else PROBE32
         torch.manual_seed(int(rng.integers(1 << 30)))
-        desc = f'SeparableDensityMatrix({dA},{dB},{nc},{bs},{dt})'
-        sm = guarded(lambda: Mm.SeparableDensityMatrix(dA, dB, nc, bs, dtype=dt))
+        desc = f'SeparableDensityMatrix({dA},{dB},{nc_arg},{bs},{dt})'
+        if rep % 4 == 0:
+            sm = guarded(lambda: Mm.SeparableDensityMatrix(dA, dB))
+        else:
+            sm = guarded(lambda: Mm.SeparableDensityMatrix(dA, dB, nc_arg, bs, dtype=dt))
+        if not isinstance(sm, str) and sm.num_cha != nc:
+            ctx.fail('separable:default-num-cha', f'{desc}: num_cha = {sm.num_cha}, documented default 2*dimA*dimB = {nc}', dict(module=desc)); continue
         if isinstance(sm, str):
             ctx.fail('separable:constructor', f'{desc} raised {sm}', dict(module=desc)); continue
         with torch.no_grad():
@@ -976,6 +1068,47 @@ def _gints(z):
     return ';'.join(f'{int(round(v.real))},{int(round(v.imag))}' for v in z)
 
 
+def sogen_tie(ctx, rng):
+    """the generator (skew-Hermitian matrix) that to_special_orthogonal_exp hands to scipy.linalg.expm / torch.linalg.matrix_exp — captured by wrapping
+    the library routine during the call — against the model's `soGenerator` (op `sogen`): ties the placement `theta -> generator` on its own, before
+    the matrix exponential"""
+    import torch, scipy.linalg
+    ops, expect = [], []
+    cap = []
+    o_np, o_t = scipy.linalg.expm, torch.linalg.matrix_exp
+    def w_np(a, *k, **kw):
+        cap.append(np.array(a)); return o_np(a, *k, **kw)
+    def w_t(a, *k, **kw):
+        cap.append(a.detach().cpu().numpy().copy()); return o_t(a, *k, **kw)
+    try:
+        scipy.linalg.expm, torch.linalg.matrix_exp = w_np, w_t
+        for d in ([2, 3, 4, 5] if ctx.quick() else [2, 3, 4, 5, 6, 7]):
+            for rc in 'rc':
+                n = d * (d - 1) // 2 if rc == 'r' else d * d - 1
+                for backend in ('np', 'torch'):
+                    th = rng.normal(size=(2, n)) * float(10 ** rng.uniform(-1, 1))
+                    del cap[:]
+                    y = guarded(lambda: M().to_special_orthogonal_exp(to_backend(th, backend, False), d))
+                    mats = [c for c in cap]
+                    for s_ in range(2):
+                        ops.append(f'C01 sogen {d} {rc} {tbits(th[s_])}')
+                        expect.append((backend, y if isinstance(y, str) else (mats[s_] if len(mats) == 2 else 'error:captured %d calls' % len(mats))))
+    finally:
+        scipy.linalg.expm, torch.linalg.matrix_exp = o_np, o_t
+    out = common.run_model(ops)
+    for op, (backend, e), line in zip(ops, expect, out):
+        ctx.count('sogen-' + backend)
+        if isinstance(e, str) or line == 'bad-op':
+            ctx.disagree(op[:600], line[:200], e if isinstance(e, str) else 'array'); continue
+        m = parse_out(line).astype(np.complex128)
+        ev = np.asarray(e).reshape(-1).astype(np.complex128)
+        err = rel_err(ev, m) if m.shape == ev.shape else float('inf')
+        if not (err <= TOL64):
+            ctx.disagree(op[:600], line[:200], f'generator handed to expm differs: rel. diff {err:.3e} ({backend})')
+        else:
+            ctx.agree(op, ('sogen', backend, op))
+
+
 def abk_cases(ctx):
     cases = [(1, 2, 1), (2, 2, 1), (2, 2, 2), (1, 2, 3), (2, 3, 2), (3, 2, 2), (2, 2, 3)]
     if not ctx.quick():
@@ -1006,6 +1139,12 @@ def abk_tie(ctx, rng):
             ops.append(f'C01 abk2 {d} {N} {_ints(to_np(m2.coeff_sym))} {_ints(to_np(m2.index_sym))} {_ints(to_np(m2.coeff_skew_sym))} '
                        f'{_ints(to_np(m2.index_skew_sym))} {_ints(to_np(m2.matAB_real))}')
             expect.append(_gints(out2))
+            # round 6: the same forward pass against the TABLE-FREE model (sum over the B copies of the embedded H_AB; only dimA, dimB, kext and the
+            # parameter matrix cross the protocol — ABk_2local_symmetry_index / ABk_2local_skew_symmetry_index / unique_index_set are not consulted)
+            ops.append(f'C01 abk2sum {dimA} {dimB} {kext} {_ints(to_np(m2.matAB_real))}')
+            expect.append(_gints(out2))
+            ops.append(f'C01 abktoab {d} {_ints(to_np(m2.matAB_real))}')
+            expect.append(_gints(m2.to_AB()))
         mat = np.arange(N * N, dtype=np.int64).reshape(N, N)
         for i in range(kext):
             for j in range(i + 1, kext):
@@ -1014,6 +1153,9 @@ def abk_tie(ctx, rng):
                 # ret[r,c] = mat[pi r, pi c]: the row permutation is read off the first column, and must explain the whole matrix
                 pi = P[:, 0] // N
                 expect.append(_ints(pi) if np.array_equal(P, mat[np.ix_(pi, pi)]) else 'not-a-simultaneous-row-column-permutation')
+    g = guarded(lambda: numqi.manifold.ABk2localHermitian(2, 2, 0))
+    ops.append('C01 abk2sum 2 2 0 ' + _ints(np.zeros((4, 4))))
+    expect.append(g if isinstance(g, str) else 'module')
     out = common.run_model(ops)
     for op, e, line in zip(ops, expect, out):
         ctx.count('abk-' + op.split(' ')[1])
@@ -1061,11 +1203,51 @@ def abk_probe(ctx, rng):
             ctx.fail('abk2local:sum-of-embeddings', f'ABk2localHermitian{desc}(): |H-H^H| = {np.abs(H2 - H2.conj().T).max():.2e}, |H - sum_i H_AB(i)| = {np.abs(H2 - want).max():.2e}', rp)
         else:
             ctx.probe_ok(('abk2', desc))
+        for i, j in pairs:
+            dlt = float(np.abs(H2 - A.ABk_permutate(H2, i, j, dimA, dimB, kext)).max())
+            if dlt > 1e-12:
+                ctx.fail('abk2local:permutation-invariant', f'ABk2localHermitian{desc}() changes by {dlt:.2e} under the exchange of B copies {i},{j}', rp)
+            else:
+                ctx.probe_ok()
         cS, iS, cK, iK = (to_np(x) for x in (m2.coeff_sym, m2.index_sym, m2.coeff_skew_sym, m2.index_skew_sym))
         if not (np.array_equal(cS[iS], cS[iS.T]) and np.array_equal(cK[iK], -cK[iK.T])):
             ctx.fail('abk2local:table-hypotheses', f'ABk_2local_*_symmetry_index{desc}: coefficient rows not (anti)symmetric under transposition (hypotheses of abk2local_hermitian)', dict(dimA=dimA, dimB=dimB, kext=kext))
         else:
             ctx.probe_ok()
+
+
+def probe_sym2psd(ctx, rng):
+    """symmetric_matrix_to_trace1PSD (exp(A)/tr exp(A), computed with a spectral shift): lands on the trace-one PSD matrices and equals the independent
+    oracle V diag(softmax(w)) V^H from numpy.linalg.eigh; dims 1 (constant branch), 2..5 (eigvalsh branch), 6,7 (eigsh branch); documented batch
+    dimensions; numpy and torch; real symmetric and complex Hermitian.  Probe only (the map is expm on LAPACK eigenvalues: nothing cheap to model)."""
+    import torch
+    for d in ([1, 2, 5, 6] if ctx.quick() else [1, 2, 3, 4, 5, 6, 7]):
+        for cplx in (False, True):
+            for shp in ((), (3,), (2, 2)):
+                for backend in ('np', 'torch'):
+                    A = rng.normal(size=shp + (d, d)) * float(10 ** rng.uniform(-2, 1.3))
+                    if cplx:
+                        A = A + 1j * rng.normal(size=shp + (d, d))
+                    A = (A + np.conj(np.swapaxes(A, -1, -2))) / 2
+                    x = torch.tensor(A) if backend == 'torch' else A.copy()
+                    y = guarded(lambda: to_np(M().symmetric_matrix_to_trace1PSD(x)))
+                    rp = dict(fn='symmetric_matrix_to_trace1PSD', backend=backend, shape=list(A.shape), matA=[str(z) for z in A.reshape(-1)])
+                    if isinstance(y, str) or y.shape != A.shape:
+                        ctx.fail('sym2psd:raises', f'symmetric_matrix_to_trace1PSD raised/shape {y if isinstance(y, str) else y.shape} on a {"Hermitian" if cplx else "symmetric"} batch {A.shape} ({backend})', rp); continue
+                    if not same_bits(x, A):
+                        ctx.fail('sym2psd:input-modified', f'symmetric_matrix_to_trace1PSD modified its argument ({backend}, {A.shape})', rp); continue
+                    w, V = np.linalg.eigh(A)
+                    e = np.exp(w - w.max(axis=-1, keepdims=True)); e = e / e.sum(axis=-1, keepdims=True)
+                    want = np.einsum('...ik,...k,...jk->...ij', V, e, V.conj())
+                    ok = True
+                    for Y, W in zip(y.reshape(-1, d, d), want.reshape(-1, d, d)):
+                        for key, good, what in psd_checks('sym2psd', d, d, not cplx, Y, PROBE64):
+                            if not good:
+                                ctx.fail(key, f'symmetric_matrix_to_trace1PSD ({backend}, d={d}, batch {shp}): {what}', rp); ok = False
+                        if float(np.abs(Y - W).max()) > 1e-9:
+                            ctx.fail('sym2psd:value', f'symmetric_matrix_to_trace1PSD ({backend}, d={d}, batch {shp}) differs from exp(A)/tr exp(A) by {np.abs(Y - W).max():.3e}', rp); ok = False
+                    if ok:
+                        ctx.probe_ok(('sym2psd', d, cplx, shp, backend))
 
 
 def probe_dtype_readonly(ctx, rng):
@@ -1182,7 +1364,7 @@ def corpus_replay(ctx):
     through the same oracles as the probe, so that a revert of a repair is re-detected deterministically"""
     import glob, json, os, torch
     Mm = M()
-    classes = {c.name: c for c in (Softplus, ExpMap, Interval, Ball, SphereQ, SphereC, Softmax, ProbSphere, PsdChol, PsdEns, SymMat, SoExp, SoCayley,
+    classes = {c.name: c for c in (Softplus, ExpMap, Interval, Ball, SphereQ, SphereC, Softmax, ProbSphere, PsdChol, PsdEns, SymMat, SoExp, SoCayley, StSO,
                                    StPolar, StQR, StCholL, StEuler)}
     files = sorted(glob.glob(os.path.join(common.VERIF, 'corpus', 'C01', '*.json')))
     n = 0
@@ -1200,7 +1382,8 @@ def corpus_replay(ctx):
                 y = guarded(lambda: to_np(spec.call(x)))
                 rp = replay_of(spec, e['backend'], f32, shp, th); rp['corpus'] = tag
                 if isinstance(y, str):
-                    ctx.fail(f'{spec.name}:raises', f'[corpus {tag}] {spec.key()} raised {y} ({e["backend"]}, {e["dtype"]}, batch {shp})', rp); continue
+                    key = 'stiefel-euler:batch-ndim>2' if (isinstance(spec, StEuler) and len(shp) > 1) else f'{spec.name}:raises'
+                    ctx.fail(key, f'[corpus {tag}] {spec.key()} raised {y} ({e["backend"]}, {e["dtype"]}, batch {shp})', rp); continue
                 if y.shape != shp + spec.out_shape():
                     ctx.fail(f'{spec.name}:shape', f'[corpus {tag}] {spec.key()} returned shape {y.shape}', rp); continue
                 ok = True
@@ -1260,9 +1443,25 @@ def probe(ctx):
     probe_dtype_readonly(ctx, rng)
     probe_weighted(ctx, rng)
     abk_probe(ctx, rng)
+    probe_sym2psd(ctx, rng)
     ctx.extra['statements_not_proved'] = []
     ctx.extra['probe_tolerance'] = f'constraints: {PROBE64} (float64), {PROBE32} (float32); exp/cayley unitarity scaled by max(1,|theta|_max*dim/10)*order'
-    ctx.assumptions.append('to_stiefel_euler asserts theta.ndim <= 2: the (k,l) batch shape is excluded for that map (the guard itself is tied)')
+    # documented batch shapes of to_stiefel_euler ("the rest dimensions will be batch dimensions"; quantifier of the property: (k,l) for every map);
+    # repaired in /repo 3915563 (the (k,l) shapes are also driven by run_specs like for every other map, and by corpus/C01/3915563_euler_batch.json)
+    for backend in ('np', 'torch'):
+        th = rng.uniform(0.1, 1.4, size=(2, 3, 3))
+        y = guarded(lambda: to_np(M().to_stiefel_euler(to_backend(th, backend, False), 3, 2)))
+        if isinstance(y, str):
+            ctx.fail('stiefel-euler:batch-ndim>2', f'to_stiefel_euler(theta of shape (2,3,3), dim=3, rank=2) raised {y} ({backend}): the docstring promises '
+                     f'"the rest dimensions will be batch dimensions" and every other to_* map accepts a (k,l) batch',
+                     dict(map='stiefel-euler', options=dict(dim=3, rank=2, rc='r', phase=False), backend=backend, dtype='float64', batch_shape=[2, 3],
+                          theta=[float(x) for x in th.reshape(-1)]))
+        else:
+            per = np.stack([to_np(M().to_stiefel_euler(to_backend(r_, backend, False), 3, 2)) for r_ in th.reshape(-1, 3)]).reshape(2, 3, 3, 2)
+            if y.shape != (2, 3, 3, 2) or not np.array_equal(y, per):
+                ctx.fail('stiefel-euler:batch==single', f'to_stiefel_euler on a (2,3) batch differs from the per-sample calls ({backend})', dict(backend=backend))
+            else:
+                ctx.probe_ok(('euler-ndim3', backend))
     ctx.assumptions.append('inputs of stiefel polar/qr/choleskyL are restricted to pre-factor matrices with condition number <= 1e3 (<= 20 for float32 parameters): the orthonormalisation error of LAPACK grows with cond^2*eps')
 
 
